@@ -4,6 +4,7 @@ CONSTANTS
   Intervals = {1, 2, 3, 6}
   Offsets <- T_Offsets
   SampledPos <- T_SampledPos
+  SampledRel = FALSE
   TickVals = {0, 1, 2, 3, 4, 5, 6, 7, 8}
   MaxTicks = 5
   RangePos <- T_RangePos
